@@ -93,6 +93,40 @@ def gen(rng, sid):
     return sc
 
 
+def gen_parked_stop(rng, sid):
+    """stop() while send() calls are parked on a full batch that cannot be drained (its partition has a batch in
+    flight): whatever send() returned a future for must still be resolved; a parked send() may only raise"""
+    sc = prodsim.gen_scenario(rng, sid, n_faults=0)
+    sc["partitions"] = 1
+    sc["max_batch_size"] = 120
+    sc["linger_ms"] = 0
+    sc["compression"] = None
+    rid = 0
+    tasks = []
+    for _t in range(rng.choice([1, 2, 3])):
+        items = []
+        for _ in range(rng.randrange(3, 7)):
+            items.append({"rid": rid, "p": 0, "sleep": rng.choice([0, 0, 0, 0.001]), "ts": None, "size": 150, "hdr": False})
+            rid += 1
+        tasks.append(items)
+    sc["tasks"] = tasks
+    sc["migrations"] = []
+    sc["leaderless"] = []
+    sc["stop_after"] = rng.choice([0.0005, 0.001, 0.002, 0.003, 0.005, 0.01, 0.03])
+    sc["stop_early"] = True
+    faults = {}
+    for _ in range(rng.choice([1, 2, 3])):
+        kind = rng.choice(["error", "error", "delay", "drop_after"])
+        f = {"kind": kind}
+        if kind == "error":
+            f["code"] = rng.choice(prodsim.RETRIABLE_CODES)
+        if kind == "delay":
+            f["delay"] = rng.choice([0.05, 0.3])
+        faults[str(rng.randrange(1, 8))] = f
+    sc["faults"] = faults
+    return sc
+
+
 def monitor(ck, sc, r):
     bad = 0
 
@@ -188,6 +222,8 @@ def run(ck: Check):
     n = ck.n(110, 1500)
     for i in range(n):
         scs.append(gen(rng, i))
+    for i in range(ck.n(40, 400)):
+        scs.append(gen_parked_stop(rng, 100000 + i))
     results = prodsim.run_scenarios(scs, timeout=ck.n(600, 2400))
     nbad = 0
     hist = {"acks0": 0, "idempotent": 0, "produce_version_cap": {}, "log_append_time": 0, "flush": 0, "failed_runs": 0}
@@ -204,6 +240,10 @@ def run(ck: Check):
         hist["flush_with_pending"] = hist.get("flush_with_pending", 0) + sum(
             1 for f in (r.get("flushes") or []) if f.get("pending_at_call"))
         hist["stop_with_pending"] = hist.get("stop_with_pending", 0) + bool((r.get("stop") or {}).get("unresolved_before"))
+        if sc.get("stop_after") is not None:
+            hist["concurrent_stop"] = hist.get("concurrent_stop", 0) + 1
+            hist["concurrent_stop_sends_refused"] = hist.get("concurrent_stop_sends_refused", 0) + sum(
+                1 for x in r["sends"] if x.get("send_exc") == "ProducerClosed")
         cap = (sc.get("api_ranges") or {}).get("0", [0, "max"])[1]
         hist["produce_version_cap"][str(cap)] = hist["produce_version_cap"].get(str(cap), 0) + 1
         # flush bookkeeping: recompute "unresolved at flush return" from the run
